@@ -20,9 +20,10 @@ func init() {
 			"(6) Iterator.isVisible ⇔ snapshot == 0 ∨ seq ≤ snapshot (table), Next/Seek/SeekToFirst each contain the skip-invisible loop and Valid tests visibility; MemTable.Put/Delete keep nextSeqNum under a > guard. " +
 			"Added after blind round 4: MemTable.Get's decision table over both arms (no entry → (nil,false), deletion marker → (nil,true), value → (value,true)). " +
 			"Added after blind round 5: MemTablePool.Put/Delete write the active table with the pool lock held; the comparator does not subtract sequence numbers. " +
-			"Added after blind round 6: the read accessors MemTable.Get, Iterator.Key, Iterator.Value (and transaction.Buffer.Get) return nil or freshly allocated bytes on every exit (tree defect in MemTable.Get, repaired: 3d66abb).",
+			"Added after blind round 6: the read accessors MemTable.Get, Iterator.Key, Iterator.Value (and transaction.Buffer.Get) return nil or freshly allocated bytes on every exit (tree defect in MemTable.Get, repaired: 3d66abb). " +
+			"Added after blind round 7: the adapter-seek rule of C05.",
 		NotDecided: "what concurrent readers observe under all interleavings (needs schedules); memory-model arguments beyond 'links are atomic.Pointer and published after initialisation'.",
-		Rules:      []func(*Ctx, *Reporter){ruleMemComparator, ruleMemFind, ruleMemInsert, ruleMemImmutableFields, ruleMemSingleWriter, ruleMemImmutable, ruleMemVisibility, ruleMemTableGetTable, rulePoolWritesUnderPoolLock, ruleComparatorNoSubtraction, ruleAccessorsReturnCopies},
+		Rules:      []func(*Ctx, *Reporter){ruleMemComparator, ruleMemFind, ruleMemInsert, ruleMemImmutableFields, ruleMemSingleWriter, ruleMemImmutable, ruleMemVisibility, ruleMemTableGetTable, rulePoolWritesUnderPoolLock, ruleComparatorNoSubtraction, ruleAccessorsReturnCopies, ruleAdapterSeekAlwaysSeeks},
 	})
 }
 
@@ -518,29 +519,29 @@ func ruleMemImmutable(c *Ctx, r *Reporter) {
 	}
 	li := c.Locks()
 	var mark, pub ssa.Instruction
-	AllInstrs(sw, false, func(_ *ssa.Function, ins ssa.Instruction) {
-		if call, ok := ins.(*ssa.Call); ok && call.Call.StaticCallee() != nil && call.Call.StaticCallee().Name() == "SetImmutable" {
-			mark = ins
+	for _, hi := range withSameReceiverHelpers(sw) {
+		if call, ok := hi.ins.(*ssa.Call); ok && call.Call.StaticCallee() != nil && call.Call.StaticCallee().Name() == "SetImmutable" {
+			mark = hi.at
 		}
-		if st, ok := ins.(*ssa.Store); ok && fieldVarOf(st.Addr) == active {
-			pub = ins
+		if st, ok := hi.ins.(*ssa.Store); ok && fieldVarOf(st.Addr) == active {
+			pub = hi.at
 		}
-	})
+	}
 	okSw := mark != nil && pub != nil && Dominates(mark, pub) && li.HeldAt(pub).Holds("memtable.MemTablePool.mu", "W")
 	r.Check(okSw, "memtable.MemTablePool.SwitchToNewMemTable", c.FnPos(sw), "the old table is marked immutable before the new active table is published, under the pool's write lock",
 		"the new active table is published before the old one is marked immutable, or without the pool's write lock")
 	// the old table joins the immutables (append) in the same critical section
 	immF := c.Field("pkg/memtable", "MemTablePool", "immutables")
 	joined := false
-	AllInstrs(sw, false, func(_ *ssa.Function, ins ssa.Instruction) {
-		if st, ok := ins.(*ssa.Store); ok && fieldVarOf(st.Addr) == immF {
+	for _, hi := range withSameReceiverHelpers(sw) {
+		if st, ok := hi.ins.(*ssa.Store); ok && fieldVarOf(st.Addr) == immF {
 			if call, ok := st.Val.(*ssa.Call); ok {
 				if b, ok := call.Call.Value.(*ssa.Builtin); ok && b.Name() == "append" && isLoadOfField(call.Call.Args[0], immF) {
 					joined = true
 				}
 			}
 		}
-	})
+	}
 	r.Check(joined, "memtable.MemTablePool.SwitchToNewMemTable:keeps-old", c.FnPos(sw), "the switched-out table is appended to the immutables (stays readable)", "the switched-out table is not appended to the immutable list: its data becomes unreadable until flushed")
 }
 
@@ -681,4 +682,29 @@ func ruleMemVisibility(c *Ctx, r *Reporter) {
 		}
 		r.Check(ok, "memtable.MemTable."+mn+":nextSeqNum", c.FnPos(fn), "nextSeqNum = seq+1 under seq > current", "the snapshot bound nextSeqNum is not maintained as a guarded maximum (+1)")
 	}
+}
+
+// helperIns: an instruction of fn, or of an unexported same-receiver helper that fn calls statically (one level); `at` is
+// where it happens in fn (the instruction itself, or the call of the helper).
+type helperIns struct {
+	ins, at ssa.Instruction
+}
+
+func withSameReceiverHelpers(fn *ssa.Function) []helperIns {
+	var out []helperIns
+	AllInstrs(fn, false, func(_ *ssa.Function, ins ssa.Instruction) {
+		out = append(out, helperIns{ins, ins})
+		call, ok := ins.(*ssa.Call)
+		if !ok {
+			return
+		}
+		h := call.Call.StaticCallee()
+		if h == nil || h == fn || len(h.Blocks) == 0 || h.Object() == nil || h.Object().Exported() || recvTypeName(h) == "" || recvTypeName(h) != recvTypeName(fn) {
+			return
+		}
+		AllInstrs(h, false, func(_ *ssa.Function, x ssa.Instruction) {
+			out = append(out, helperIns{x, ins})
+		})
+	})
+	return out
 }
